@@ -29,7 +29,11 @@ fn gen_hist(rng: &mut Rng) -> Hist {
     let mut enc = Encoder::new();
     let cs = *rng.pick(&[1usize, 2, 5, 16, 128, 128, 128, 200]);
     enc.chunk_size = cs; // both sides are told below
-    let rounds = rng.usize(1, 3);
+    // steady mode: every chunk stream ticks with its own constant delta and keeps its message
+    // shape, so that later rounds start their messages with format 2 and format 3 headers
+    let steady = rng.coin();
+    let rounds = if steady { rng.usize(2, 5) } else { rng.usize(1, 3) };
+    let mut clocks: std::collections::HashMap<u32, (u32, u32, u8, u32, usize)> = std::collections::HashMap::new();
     let mut wire_chunks: Vec<(usize, Vec<u8>)> = Vec::new();
     let mut msgs: Vec<Msg> = Vec::new();
     let mut csids_all: Vec<u32> = Vec::new();
@@ -65,21 +69,44 @@ fn gen_hist(rng: &mut Rng) -> Hist {
                 1 => 2,
                 _ => rng.usize(2, 9),
             };
-            let len = if nchunks == 1 { rng.usize(0, cs) } else { cs * (nchunks - 1) + rng.usize(1, cs) };
+            let mut len = if nchunks == 1 { rng.usize(0, cs) } else { cs * (nchunks - 1) + rng.usize(1, cs) };
             ts = ts.wrapping_add(rng.below(50) as u32);
+            let csid_j = pool[j];
+            let mut steady_shape: Option<(u8, u32)> = None;
+            if steady {
+                let e = clocks.entry(csid_j).or_insert_with(|| (ts, *rng.pick(&[0u32, 20, 33, 40, 1000, 0xFFFFFF, 0x1000000]), *rng.pick(&[8u8, 9, 18, 20]), *rng.pick(&[1u32, 1, 2]), len));
+                e.0 = e.0.wrapping_add(e.1);
+                if rng.chance(5, 6) {
+                    // same shape as before on this chunk stream (otherwise only the clock is kept)
+                    len = e.4;
+                    steady_shape = Some((e.2, e.3));
+                }
+            }
+            let ts_msg = if steady { clocks[&csid_j].0 } else { ts };
             let mut data = vec![0u8; len];
             // tag every byte with its message so mixing is visible in the witness
             for (i, b) in data.iter_mut().enumerate() {
                 *b = ((base + j) as u8) << 4 | (i as u8 & 0x0F);
             }
             let m = Msg {
-                type_id: *rng.pick(&[8u8, 9, 18, 20]),
+                type_id: steady_shape.map(|x| x.0).unwrap_or_else(|| *rng.pick(&[8u8, 9, 18, 20])),
                 // message stream ids sometimes equal to a chunk stream id of the group
-                msid: if rng.chance(1, 5) { pool[rng.usize(0, 5)] } else { *rng.pick(&[1u32, 1, 2]) },
-                ts,
+                msid: steady_shape.map(|x| x.1).unwrap_or_else(|| if rng.chance(1, 5) { pool[rng.usize(0, 5)] } else { *rng.pick(&[1u32, 1, 2]) }),
+                ts: ts_msg,
                 data,
             };
+            // now and then a protocol-control message (Abort, type 2) whose number is one of the
+            // chunk stream ids of the group: to the deserializer it is a message like any other -
+            // the sender goes on sending the chunks of the message it names, and every message is
+            // delivered intact
+            let mut m = m;
+            if steady_shape.is_none() && rng.chance(1, 12) {
+                m.type_id = 2;
+                m.msid = 0;
+                m.data = pool[rng.usize(0, nmsg.min(6) - 1)].to_be_bytes().to_vec();
+            }
             let csid = pool[j];
+            let ts = ts_msg;
             let nonneg = enc.prev_info(csid).map(|p| ts.wrapping_sub(p.0) < 0x8000_0000).unwrap_or(false);
             let c: Choice = {
                 let mut c = enc.random_choice(rng, csid, &m, nonneg, false);
@@ -439,7 +466,7 @@ impl Check for C16 {
         run_hist(h, rng, out);
     }
     fn rule(&self) -> String {
-        "1-3 rounds of 2-6 messages (1-9 chunks each, chunk sizes {1,2,5,16,128,200}) on distinct chunk stream ids of all three csid forms, encoded by the independent encoder and interleaved by a scheduler that keeps each message's chunks in order: no-overlap, audio-inside-video, round-robin, pairwise, random. Case 0: three 9 MiB messages in flight at once at chunk size 1 MiB, round-robin (more unfinished data than one maximum-size message). A quarter of the histories instead interleave 1-4 messages (0-3000 bytes) per round with up to five in-band SetChunkSize messages on chunk stream 2 placed between chunks of the messages in flight (new sizes {1, 2, 5, 16, 100, 128, 200, 300, 1000, 4096, 65536, 2^31-1}: below, at and above the lengths in flight); every later chunk, also of messages already begun, is cut at the new size, and the deserializer is told the new size when the SetChunkSize message is delivered, as the sessions do. Payload bytes are tagged with their message index. Expected deliveries (each message when its last chunk arrives) come from independent per-csid reassembly. The stream is fed in two phases around the first overlap point (first chunk arriving on a csid while another csid has a partial message), each in 3 partitions. distinct = (messages, schedule, first-overlap offset bucket, chunk count).".to_string()
+        "1-3 rounds of 2-6 messages (1-9 chunks each, chunk sizes {1,2,5,16,128,200}) on distinct chunk stream ids of all three csid forms, encoded by the independent encoder and interleaved by a scheduler that keeps each message's chunks in order: no-overlap, audio-inside-video, round-robin, pairwise, random. Case 0: three 9 MiB messages in flight at once at chunk size 1 MiB, round-robin (more unfinished data than one maximum-size message). A quarter of the histories instead interleave 1-4 messages (0-3000 bytes) per round with up to five in-band SetChunkSize messages on chunk stream 2 placed between chunks of the messages in flight (new sizes {1, 2, 5, 16, 100, 128, 200, 300, 1000, 4096, 65536, 2^31-1}: below, at and above the lengths in flight); every later chunk, also of messages already begun, is cut at the new size, and the deserializer is told the new size when the SetChunkSize message is delivered, as the sessions do. One message in twelve is an Abort (type 2) naming a chunk stream id of its group - to the deserializer a message like any other, since the sender goes on with the message it names. Payload bytes are tagged with their message index. Expected deliveries (each message when its last chunk arrives) come from independent per-csid reassembly. The stream is fed in two phases around the first overlap point (first chunk arriving on a csid while another csid has a partial message), each in 3 partitions. distinct = (messages, schedule, first-overlap offset bucket, chunk count).".to_string()
     }
     fn assumptions(&self) -> Vec<String> {
         vec![
